@@ -141,10 +141,13 @@ Fixpoint ecu_by_name (n : Z) (es : list ecu) : option ecu :=
   | [] => None
   | e :: r => if e_name e =? n then Some e else ecu_by_name n r
   end.
-(* fnmatch with the two patterns the harness uses: None = "*", Some n = the exact name n *)
-Definition glob_match (g : option Z) (n : Z) : bool :=
-  match g with None => true | Some x => x =? n end.
-Definition glob_ecus (g : option Z) (m : matrix) : list ecu := filter (fun e => glob_match g (e_name e)) (m_ecus m).
+(* a name pattern (fnmatch), given by what it selects: None = "*" (every name), Some l = exactly the names in l.  Names are
+   interned, so the spelling of a pattern ('?', '[seq]', '[!seq]', 'prefix*') stays outside the model: the harness resolves it
+   with its own matcher over the names of the source and hands the selected names over *)
+Definition glob := option (list Z).
+Definition glob_match (g : glob) (n : Z) : bool :=
+  match g with None => true | Some l => memz n l end.
+Definition glob_ecus (g : glob) (m : matrix) : list ecu := filter (fun e => glob_match g (e_name e)) (m_ecus m).
 
 (* ---------- primitive edits ---------- *)
 (* add_ecu: nothing if the name is already listed *)
@@ -259,7 +262,7 @@ Definition copy_ecu_obj (e : ecu) (src t : matrix) : matrix :=
   | Some _ => t
   | None => fold_left (attr_step (TEcu (e_name e)) true false (e_attrs e)) (m_edefs src) (add_ecu e t)
   end.
-Definition copy_ecu (g : option Z) (src t : matrix) : matrix :=
+Definition copy_ecu (g : glob) (src t : matrix) : matrix :=
   fold_left (fun t e => copy_ecu_obj e src t) (glob_ecus g src) t.
 
 (* ---------- copy_frame ---------- *)
@@ -289,7 +292,7 @@ Definition copy_frame (id : arbid) (src t : matrix) : bool * matrix :=
 (* ---------- copy_signal ---------- *)
 Definition copy_one_signal (s : signal) (src t : matrix) : matrix :=
   fold_left (attr_step TLastFree false true (s_attrs s)) (m_sdefs src) (add_signal s t).
-Definition copy_signal (g : option Z) (src t : matrix) : matrix :=
+Definition copy_signal (g : glob) (src t : matrix) : matrix :=
   fold_left (fun t f => fold_left (fun t s => if glob_match g (s_name s) then copy_one_signal s src t else t) (f_sigs f) t)
             (m_frames src) t.
 
@@ -326,7 +329,7 @@ Definition copy_ecu_frames_one (rx tx : bool) (src t : matrix) (e : ecu) : matri
   let ta := copy_ecu_obj e src t in
   let tb := if tx then copy_frames_where (sends (e_name e)) src ta else ta in
   if rx then copy_frames_where (receives (e_name e)) src tb else tb.
-Definition copy_ecu_with_frames (g : option Z) (rx tx direct : bool) (src t : matrix) : matrix :=
+Definition copy_ecu_with_frames (g : glob) (rx tx direct : bool) (src t : matrix) : matrix :=
   let ecu_list := glob_ecus g src in
   let t1 := fold_left (copy_ecu_frames_one rx tx src) ecu_list t in
   let t2 := update_ecu_list t1 in
@@ -342,9 +345,9 @@ Definition merge (srcs : list matrix) (t : matrix) : matrix := fold_left merge_o
 (* ---------- histories ---------- *)
 Inductive op :=
 | OpCopyFrame (id : arbid) (src : matrix)
-| OpCopyEcu (g : option Z) (src : matrix)
-| OpCopyEcuFrames (g : option Z) (rx tx direct : bool) (src : matrix)
-| OpCopySignal (g : option Z) (src : matrix)
+| OpCopyEcu (g : glob) (src : matrix)
+| OpCopyEcuFrames (g : glob) (rx tx direct : bool) (src : matrix)
+| OpCopySignal (g : glob) (src : matrix)
 | OpMerge (srcs : list matrix).
 Definition apply_op (t : matrix) (o : op) : matrix :=
   match o with
